@@ -24,7 +24,7 @@ for pid in ids:
             "evidence_file": f"/verif/evidence/{pid}.json",
             "replay_cmd_template": f"./check {pid} --replay {{path}}",
             "engine": "simkit",
-            "level_claimed": {"category": c["level"], "text": c["text"], "design_ref": c.get("design_ref", f"DESIGN.md section 5, {pid}")},
+            "level_claimed": {"category": c["level"], "text": c["text"] + ((" Added after seeded changes exposed gaps: " + registry.EXTENSIONS[pid]) if pid in getattr(registry, "EXTENSIONS", {}) else ""), "design_ref": c.get("design_ref", f"DESIGN.md section 5, {pid}")},
             "level_note": c["note"],
             "technique": c.get("technique", "deterministic simulation with fault injection: seeded search over schedules and fault sequences"),
         }
